@@ -451,7 +451,24 @@ func init() {
 					case *Sym:
 						may := symBool(fmt.Sprintf("(or (and (bvuge %s #x30) (bvule %s #x39)) (= %s #x69) (= %s #x49) (= %s #x6e) (= %s #x4e))", c.E, c.E, c.E, c.E, c.E, c.E))
 						if eng.Branch(may) {
-							panic(inconclusive{"strconv.ParseFloat on a symbolic string that may spell a number (not encodable)"})
+							// the text may spell a number: enumerate the feasible spellings (the
+							// solver proposes each value of each symbolic byte) and parse natively
+							bs := strBytes(a[0])
+							if len(bs) > 4 {
+								panic(inconclusive{"strconv.ParseFloat on a symbolic string of more than 4 bytes that may spell a number (not encodable)"})
+							}
+							buf := make([]byte, len(bs))
+							for i, c := range bs {
+								switch c := c.(type) {
+								case uint8:
+									buf[i] = c
+								case *Sym:
+									buf[i] = byte(eng.concretize(c))
+								}
+							}
+							used("strconv.ParseFloat (model: symbolic texts of up to 4 bytes that may spell a number are enumerated)")
+							v, err := strconv.ParseFloat(string(buf), int(asInt64(a[1])))
+							return tuple{v, nativeErr(fr, err)}
 						}
 					}
 				}
